@@ -11,9 +11,9 @@ def run(tier):
     t = vlib.Timer()
     exe = seqxrun.build("c12", ["c12.cpp"])
     if tier == "quick":
-        args = [["--tokens", 3, "--values", 1, "--cond-tokens", 5, "--shard", i, "--nshards", NSH] for i in range(NSH)]
+        args = [["--tokens", 3, "--values", 1, "--cond-tokens", 5, "--spec-family", 1, "--reuse-family", 1, "--shard", i, "--nshards", NSH] for i in range(NSH)]
     else:
-        args = [["--tokens", 3, "--values", 0, "--shard", i, "--nshards", NSH] for i in range(NSH)] + \
+        args = [["--tokens", 3, "--values", 0, "--spec-family", 1, "--reuse-family", 1, "--shard", i, "--nshards", NSH] for i in range(NSH)] + \
                [["--tokens", 4, "--values", 1, "--cond-tokens", 7, "--shard", i, "--nshards", 4 * NSH] for i in range(4 * NSH)]
     parts = seqxrun.run_shards(exe, args, timeout=7000)
     fails = [p for p in parts if "_crash" in p or "_timeout" in p]
@@ -27,7 +27,8 @@ def run(tier):
              "with ?N,M forms, format specs from the four documentation tables, the five type conditionals, and unterminated tails; each formatted for every value of an adversarial list "
              "(empty, pattern syntax, U+200B alone / trailing / surrounding, astral, combining, RTL) as message AND attribute value x all five types by the real PatternFormatter and by an "
              "independent reference working on UTF-16 code units from docs/api/formatters.md; plus longer patterns (5 / 7 tokens) over a reduced alphabet built around the conditionals "
-             "(the same placeholder in blocks of different types, inside and outside a block); one formatter object formats all values and types of a pattern in sequence; cases where the documentation is silent are excluded and counted per reason "
+             "(the same placeholder in blocks of different types, inside and outside a block); plus the format-spec grammar as a product: 11 fills (incl. the alignment characters < > ^ themselves, !, 0, blank) x 4 alignments x 7 widths x with/without ! on 4 placeholders; "
+             "plus consecutive messages through one formatter whose function / file / category strings arrive in the same caller-owned buffers with new contents; one formatter object formats all values and types of a pattern in sequence; cases where the documentation is silent are excluded and counted per reason "
              "(coverage.counters); evaluations = (pattern, value, type, signature) cases, states = patterns",
         assumptions=["category/file/function are printable ASCII (what compilers and Qt produce)",
                      "accept-sets: ISO time with or without milliseconds; padding width of values with astral characters counted in code units or code points",
